@@ -20,6 +20,8 @@ pub enum RErr {
     Custom(String),
     /// a builtin reported an error (any error)
     Builtin,
+    /// an operator was applied to the wrong number of operands
+    Arity,
 }
 
 /// What a reference user function does.
@@ -94,7 +96,7 @@ fn assigns_to(a: &Ast, x: &str) -> bool {
     match a {
         Ast::Var(_) | Ast::Lit(_) | Ast::Unit => false,
         Ast::Bin(_, l, r) => assigns_to(l, x) || assigns_to(r, x),
-        Ast::Pre(_, e) | Ast::Call(_, e) => assigns_to(e, x),
+        Ast::Pre(_, e) | Ast::Call(_, e) | Ast::Partial(_, e) => assigns_to(e, x),
         Ast::Asg(_, y, e) => y == x || assigns_to(e, x),
         Ast::Tuple(es) | Ast::Chain(es) => es.iter().any(|e| assigns_to(e, x)),
     }
@@ -280,6 +282,12 @@ impl RCtx {
                 }
                 Ok(last)
             },
+            Ast::Partial(_, e) => {
+                // the present operand is evaluated (its effects and errors come first), then the operator
+                // fails on its operand count
+                self.eval(e, mode)?;
+                Err(RErr::Arity)
+            },
         }
     }
 }
@@ -305,6 +313,7 @@ pub fn err_matches(r: &RErr, e: &evalexpr::EvalexprError) -> bool {
             et == *t && RV::from_ev(actual).key() == *vkey
         },
         (RErr::Custom(m), E::CustomMessage(n)) => m == n,
+        (RErr::Arity, E::WrongOperatorArgumentAmount { .. }) => true,
         (RErr::Builtin, E::FunctionIdentifierNotFound(_)) => false,
         (RErr::Builtin, _) => true,
         _ => false,
